@@ -13,6 +13,7 @@ import (
 	"pgregory.net/rapid"
 
 	"verif/lib/ev"
+	"verif/lib/sched"
 )
 
 // genBlob draws item bytes biased to framing look-alikes.
@@ -107,6 +108,7 @@ func TestC19(t *testing.T) {
 		t.Fatalf("FAIL[%s] %s\nCASE: %s", sig, msg, desc)
 	}
 	rapid.Check(t, func(t *rapid.T) {
+		sched.SeedRand(t)
 		n := rapid.IntRange(0, 12).Draw(t, "nitems")
 		items := make([][]byte, n)
 		big, zeros := false, false
@@ -268,6 +270,7 @@ func TestC19(t *testing.T) {
 func TestC19KV(t *testing.T) {
 	st := ev.Get("C19", "TestC19KV")
 	rapid.Check(t, func(t *rapid.T) {
+		sched.SeedRand(t)
 		genK := func(label string) []byte {
 			switch rapid.IntRange(0, 9).Draw(t, label+"class") {
 			case 0:
